@@ -1360,6 +1360,11 @@ class Evaluator(object):
                 item = args[0] if name == "append" else ("comp", "list", ("elem", args[0], len(frame.loops)), args[0], ())
                 loop.appends.setdefault(src_name, []).append((item, tuple(l for l in rel if not (isinstance(l[0], tuple) and l[0] and l[0][0] == "impl")), name, recv))
                 return NONE
+        if name == "get" and not kwargs and len(args) in (1, 2) and recv[0] == "fld" and recv[2] in ("temp", "perm"):
+            # d.get(k[, default]) on the plain dicts a strategy carries: d[k] when k is present, the default otherwise
+            stored = st.sub.get((canon(recv), canon(args[0])))
+            inner = stored if stored is not None else ("sub", recv, args[0])
+            return ("ite", ("cmp", "in", args[0], recv), inner, args[1] if len(args) == 2 else NONE)
         if name in MUTATORS or kwargs.get("inplace") == ("bool", True):
             ev = Event("call", recv=recv, name=name, args=args, kwargs=kwargs, extra="mutate")
             self.emit(ev, node, st, frame)
